@@ -38,6 +38,10 @@ def seed_minimal(db: MiniDB, n_tokens: int = 4, users=(USER,), billing_projects=
            'disk/local-ssd/nonpreemptible/1']
     db.load_rows('resources', [dict(resource=r, rate=(i + 1) * 1e-9, resource_id=i + 1, deduped_resource_id=i + 1)
                                for i, r in enumerate(res)])
+    # two legacy product versions folded onto ids 1 and 2 by the dedup migrations (083-088): resource_id != deduped_resource_id.
+    # Every aggregate table is keyed by the DEDUPED id (seed C02-13 filed one table under the raw id).
+    db.load_rows('resources', [dict(resource='compute/n1-preemptible/0', rate=1e-9, resource_id=11, deduped_resource_id=1),
+                               dict(resource='memory/n1-preemptible/0', rate=2e-9, resource_id=12, deduped_resource_id=2)])
     db.load_rows('latest_product_versions', [dict(product=r.rsplit('/', 1)[0], version='1', sku=None) for r in res])
     db.load_rows('regions', [{'region': 'us-central1'}, {'region': 'us-east1'}])
     db.load_rows('billing_projects', [dict(name=b, name_cs=b) for b in billing_projects])
